@@ -66,6 +66,7 @@ func (c01) Plan(tier string, seed int64) []mon.Workload {
 		{Name: "store-consume", N: int64(len(c01Stores) * len(c01StoreVals) * len(c01Consumers)), Exhaustive: true},
 		{Name: "malformed-table", N: int64(len(c01Holes) * len(c08BadV1)), Exhaustive: true},
 		{Name: "malformed-slots", N: n / 40},
+		{Name: "time-zones", N: int64(len(c12Times) * len(gen.Zones)), Exhaustive: true},
 	}
 }
 
@@ -173,6 +174,21 @@ func hostilePoint(c *mon.Ctx, variant int) (*input.Point, string) {
 
 func (c01) build(c *mon.Ctx, workload string, i int64) (main []*gt.T, lib []*gt.T) {
 	switch workload {
+	case "time-zones":
+		// every timestamp spelling x every zone spelling (known, numeric,
+		// unknown, malformed), the conversion called twice in the script and
+		// the script run twice: zone lookups are a natural place for a cache
+		zone := gen.Zones[int(i)%len(gen.Zones)]
+		text := c12Times[int(i)/len(gen.Zones)]
+		call := func(k string) *gt.T {
+			c := gt.Call("default_time", gt.Ident(k))
+			if zone != "" {
+				c.Kids = append(c.Kids, gt.Str(zone))
+			}
+			return c
+		}
+		return []*gt.T{gt.Call("add_key", gt.Ident("ts"), gt.Str(text)), call("ts"), gt.Assign("=", gt.Ident("tv"), gt.Str(text)), call("tv"),
+			gt.Call("add_key", gt.Ident("ts2"), gt.Str(text)), call("ts2"), gt.Call("datetime", gt.Ident("ts2"), gt.Str("ns"), gt.Str("RFC3339")), gt.Call("p", gt.Ident("ts"), gt.Ident("tv"))}, nil
 	case "builtin-shapes":
 		variant := int(i % 4)
 		i /= 4
